@@ -37,7 +37,7 @@ Proof.
   intros t b s o S R. unfold content. destruct o as [p|fd p creat trunc|fd d|fd|fd|src dst|p]; cbn [step files].
   - reflexivity.
   - cbn [safe_op] in S. destruct (String.eqb p t) eqn:E.
-    + cbn [negb orb] in S. apply andb_true_iff in S. destruct S as [S1 S2].
+    + cbn [negb andb orb] in S. apply andb_true_iff in S. destruct S as [S1 S2].
       apply negb_true_iff in S1. apply negb_true_iff in S2. subst creat trunc.
       destruct (fget (files s) p); reflexivity.
     + apply String.eqb_neq in E.
@@ -165,6 +165,27 @@ Proof.
   { unfold s1. cbn [step]. rewrite G. cbn [fds fd_path]. rewrite Z.eqb_refl. reflexivity. }
   assert (G1 : fget (files s1) tmp = Some "").
   { unfold s1. cbn [step]. rewrite G. cbn [files]. apply fget_fput_same. }
+  destruct (run_writes fd tmp ds s1 "" F1 G1) as [A [B C]]. cbn zeta in A, B, C.
+  set (s2 := run s1 (map (FWrite fd) ds)) in *.
+  cbn [fold_left step]. unfold content. cbn [files].
+  rewrite B. cbn [files]. apply fget_fput_same.
+Qed.
+
+(* whatever a killed earlier save left under the temporary name: a temporary that is opened
+   truncating (or exclusively) and renamed in after all writes gives exactly the written data *)
+Lemma save_final_ignores_leftovers_lemma : forall fd tmp target ds s,
+  tmp <> target ->
+  content (run s (FOpen fd tmp true true :: map (FWrite fd) ds ++ [FMeta fd; FMeta fd; FClose fd; FRename tmp target])) target
+  = Some (String.concat "" ds).
+Proof.
+  intros fd tmp target ds s N.
+  change (run s (FOpen fd tmp true true :: ?x)) with (run (step s (FOpen fd tmp true true)) x).
+  unfold run at 1. rewrite fold_left_app. fold (run (step s (FOpen fd tmp true true)) (map (FWrite fd) ds)).
+  set (s1 := step s (FOpen fd tmp true true)).
+  assert (F1 : fd_path (fds s1) fd = Some tmp).
+  { unfold s1. cbn [step]. destruct (fget (files s) tmp); cbn [fds fd_path]; rewrite Z.eqb_refl; reflexivity. }
+  assert (G1 : fget (files s1) tmp = Some "").
+  { unfold s1. cbn [step]. destruct (fget (files s) tmp); cbn [files]; apply fget_fput_same. }
   destruct (run_writes fd tmp ds s1 "" F1 G1) as [A [B C]]. cbn zeta in A, B, C.
   set (s2 := run s1 (map (FWrite fd) ds)) in *.
   cbn [fold_left step]. unfold content. cbn [files].
